@@ -1,13 +1,21 @@
 import H2V.Driver.Core
+import H2V.Driver.Codec
 open H2V H2V.Driver
 
-def stepLine (st : DState) (line : String) : DState × String :=
-  let ws := (line.trimAscii.toString.splitOn " ").filter (· ≠ "")
-  match handleCore st ws with
-  | some r => r
-  | none => (st, "bad-op")
+structure AllState where
+  core : DState := {}
+  codec : CState := {}
 
-partial def loop (hin : IO.FS.Stream) (hout : IO.FS.Stream) (st : DState) : IO Unit := do
+def stepLine (st : AllState) (line : String) : AllState × String :=
+  let ws := (line.trimAscii.toString.splitOn " ").filter (· ≠ "")
+  match handleCore st.core ws with
+  | some (c, out) => ({ st with core := c }, out)
+  | none =>
+    match handleCodec st.codec ws with
+    | some (c, out) => ({ st with codec := c }, out)
+    | none => (st, "bad-op")
+
+partial def loop (hin : IO.FS.Stream) (hout : IO.FS.Stream) (st : AllState) : IO Unit := do
   let line ← hin.getLine
   if line.isEmpty then return ()
   let t := line.trimAscii.toString
